@@ -21,6 +21,7 @@ TABLE = {
     "S1/gap1": ["C12"], "S1/gap2": ["C04"], "S1/gap3": ["C04"], "S1/gap4": ["C12"], "S1/gap5": ["C12"], "S1/gap6": ["C12"], "S1/gap7": ["C04"],
     "S1/gap8": ["C04"], "S1/gap9": ["C16"], "S1/gap10": ["C12"],
     "T1/gap1": ["C01"], "T2/gap1": ["C18"], "T2/gap2": ["C15"], "T3/gap1": ["C03"], "T3/gap2": ["C03"], "T3/gap3": ["C04"], "T3/gap4": ["C03"],
+    "U3/gap1": ["C12"], "U3/gap2": ["C15"], "U3/gap3": ["C15", "C12"], "U3/gap3b": ["C15"], "U2/gap1": ["C19"],
     "S2/gap1": ["C14"], "S2/gap2": ["C10"], "S2/gap3": ["C05"], "S3/gap1": ["C06"], "S3/gap2": ["C18"], "S3/gap3": ["C11"],
     "S4/gap1": ["C03"], "S4/gap2": ["C19"], "S4/gap3": ["C07"], "S4/gap4": ["C19"], "S4/gap5": ["C19"], "S5/gap1": ["C17"], "S5/gap2": ["C13"], "R4/gap2": ["C12"], "R4/gap3": ["C12"], "R4/gap4": ["C12"], "R4/gap5": ["C12"], "R4/gap6": ["C12"],
     "R4/gap7": ["C19"], "R4/gap8": ["C19"], "R4/gap9": ["C18"], "R4/gap10": ["C11"],
